@@ -234,15 +234,13 @@ class ParticleCollection(Pytree):
         )
         weights_normalized = jnp.exp(log_weights_normalized)
 
-        # Compute weighted average
-        # For scalar values: sum(w_i * v_i)
-        # For arrays: maintains shape of values
-        if values.ndim == 1:
-            # Simple weighted average for scalar values per particle
-            return jnp.sum(weights_normalized * values)
-        else:
-            # For multi-dimensional values, weight along the particle dimension (axis 0)
-            return jnp.sum(weights_normalized[:, None] * values, axis=0)
+        # Compute weighted average along the particle dimension (axis 0) of every
+        # leaf of the values, whatever its rank: sum_i w_i * v_i
+        def weighted(v):
+            w = weights_normalized.reshape((-1,) + (1,) * (jnp.ndim(v) - 1))
+            return jnp.sum(w * v, axis=0)
+
+        return jtu.tree_map(weighted, values)
 
 
 def _create_particle_collection(
